@@ -460,6 +460,13 @@ func (e *Env) lookupRoot(name string) (SV, bool) {
 func (e *Env) path(a string) (string, types.Type, bool, error) {
 	vc := e.vc
 	root, steps := splitPath(a)
+	if whole, ok0 := e.roots[strings.TrimPrefix(a, "*")]; ok0 && len(whole.Tup) == 0 {
+		root, steps = strings.TrimPrefix(a, "*"), nil
+	} else if len(steps) > 0 {
+		if _, ok1 := e.roots[root+steps[0]]; ok1 {
+			root, steps = root+steps[0], steps[1:]
+		}
+	}
 	sv, ok := e.lookupRoot(root)
 	if !ok {
 		// global: pkg.Name or Name in the contract's package
